@@ -107,7 +107,12 @@ class DFXPReader(BaseReader):
         for div in dfxp_document.find_all('div'):
             lang = div.attrs.get('xml:lang', default_language)
 
-            caption_dict[lang] = self._convert_div_to_caption_list(div)
+            captions = self._convert_div_to_caption_list(div)
+            if lang in caption_dict:
+                # a language may be spread over several divs: keep them all
+                caption_dict[lang].extend(captions)
+            else:
+                caption_dict[lang] = captions
 
         for style in dfxp_document.find_all('style'):
             id_ = style.attrs.get('xml:id') or style.attrs.get('id')
